@@ -139,6 +139,7 @@ static int g_rr_next;           // round robin pointer for the fair fallback
 static size_t g_futex_wait_idx;
 static int g_alloc_count_matching;
 static bool g_quiescent_livelock;
+static int g_main_yields;
 static std::vector<uint8_t> g_trace;   // realized choices
 static std::map<std::string, uint64_t> g_events;  // cumulative over the process
 static rt_rwlock_cb g_rwlock_cb;
@@ -723,7 +724,12 @@ static int wake_waiters_on (const void *obj, int max) {
 
 extern "C" void rt_yield (void) {
 	Fiber *f = g_cur;
-	if (f == NULL) return;
+	if (f == NULL) {
+		// the main context (setup / quiescence handler / finish) runs while every thread is stopped: a spin
+		// loop that has backed off to yielding can never be satisfied
+		if (g_in_execute && ++g_main_yields > 64) raise_verdict (RT_V_DEADLOCK, 0, "main-blocked", "main context spins on a lock bit that nobody can clear");
+		return;
+	}
 	g_st.yields++;
 	g_st.steps++;
 	f->touched_blocking = true;
@@ -1338,7 +1344,7 @@ extern "C" void rt_execute (const rt_config *cfg, const rt_hooks *hooks, rt_verd
 	g_progress = 0;
 	g_rng = cfg->seed * 0x2545f4914f6cdd1dull + 0x1234567;
 	g_bytepos = 0; g_rr_next = 0; g_futex_wait_idx = 0; g_alloc_count_matching = 0;
-	g_quiescent_livelock = false;
+	g_quiescent_livelock = false; g_main_yields = 0;
 	g_trace.clear ();
 	g_main_waiter = NULL; g_main_waiter_dest = NULL;
 	g_pct_nchange = 0; g_pct_low = 500; g_clock_prio = 0;
